@@ -86,6 +86,41 @@ def isp(chk, prog):
     chk.require(ri.ret == want, "ISP-CONSTS", "initial_style_bind/_impl", "split at params['num_consts'] (reader agrees with the writer) and evaluate the staged jaxpr", derived=show(ri.ret)[:240], expected=show(want)[:240], where=f"{m.rel}:{impl.lineno}")
 
 
+ABSTRACTIFY = ("get_aval", "shaped_abstractify", "raise_to_shaped")  # JAX's own abstractification (keeps weak types)
+
+
+def staging_rules(chk, prog):
+    """stage(): the staged jaxpr is traced at JAX's own abstract values of the flat arguments (so dtype promotion matches ordinary evaluation)"""
+    SG = "core/compiler/staging.py"
+    sm, stf = prog.func("stage", SG)
+    wr = prog.nested(stf, "wrapped")
+    ev = Evaluator(prog)
+    ev.opaque_funcs |= {"get_shaped_aval", "cached_stage_dynamic"}
+    rs = ev.eval_fn(wr, sm, env0={"f": P("f")})
+    oks = is_t(rs.ret, "tuple") and len(rs.ret[1]) == 2 and is_t(rs.ret[1][1], "tuple") and len(rs.ret[1][1][1]) == 3 and is_call(rs.ret[1][0], "cached_stage_dynamic")
+    fl = ("call", G("jax.tree_util.tree_flatten"), (P("args"),), ())
+    if oks:
+        oks = rs.ret[1][1][1][0] == mk_proj(fl, 0) and rs.ret[1][1][1][1] == mk_proj(fl, 1)
+    chk.require(oks, "INTERP-SKELETON", "stage.wrapped", "returns the staged jaxpr with (flat_args, in_tree, out_tree) of the same flattening", derived=show(rs.ret)[:240], expected="(typed_jaxpr, (flat_args, in_tree, out_tree))", where=f"{sm.rel}:{stf.lineno}")
+    avals = rs.ret[1][0][2][1] if oks and len(rs.ret[1][0][2]) == 2 else None
+    oka = avals is not None and any(is_call(x, "safe_map") and len(x[2]) == 2 and is_call(("call", x[2][0], (), ()), "get_shaped_aval") and x[2][1] == mk_proj(fl, 0) for x in subterms(avals))
+    chk.require(oka, "STAGE-AVAL", "stage.wrapped/avals", "one abstract value per flat argument", derived=show(avals)[:160], expected="tuple(safe_map(get_shaped_aval, flat_args))", where=f"{sm.rel}:{stf.lineno}")
+    _, ga = prog.func("get_shaped_aval", SG)
+    rg = Evaluator(prog).eval_fn(ga, sm)
+    t = rg.ret
+    inner = t
+    while is_call(inner, *ABSTRACTIFY) and inner[2] and inner[2][0] != P("x"):
+        inner = inner[2][0]
+    okg = is_call(inner, *ABSTRACTIFY) and inner[2] == (P("x"),)
+    chk.require(okg, "STAGE-AVAL", "get_shaped_aval", "abstract value used for staging", derived=show(t)[:160],
+                expected="JAX's own abstractification of the value (jax.core.get_aval / shaped_abstractify), which keeps weak types: a hand-built ShapedArray(shape, dtype) changes dtype promotion of Python scalars in the staged program", where=f"{sm.rel}:{ga.lineno}")
+    _, cs = prog.func("cached_stage_dynamic", SG)
+    rc = Evaluator(prog).eval_fn(cs, sm)
+    tr = ("call", G("jax.interpreters.partial_eval.trace_to_jaxpr_dynamic"), (P("flat_fun"), P("in_avals")), ())
+    okc = rc.ret == ("call", G("jax.extend.core.ClosedJaxpr"), (mk_proj(tr, 0), mk_proj(tr, 2)), ())
+    chk.require(okc, "STAGE-AVAL", "cached_stage_dynamic", "jaxpr and its constants from the same trace", derived=show(rc.ret)[:200], expected="ClosedJaxpr(jaxpr, consts) of trace_to_jaxpr_dynamic(flat_fun, in_avals)", where=f"{sm.rel}:{cs.lineno}")
+
+
 def run(chk, prog):
     ev = Evaluator(prog)
     SI = prog.cls("StatefulInterpreter", ST)
@@ -121,13 +156,5 @@ def run(chk, prog):
     chk.require(okw, "INTERP-SKELETON", "stateful.wrapped", "handler, function, arguments", derived=show(rw.ret)[:160], expected="interpreter.run_interpreter(stateful_handler, f, *args)", where=f"{m.rel}:{sf.lineno}")
     environment(chk, prog)
     isp(chk, prog)
-    # stage(): returns (closed_jaxpr, (flat_args, in_tree, out_tree))
-    sm, stf = prog.func("stage", "core/compiler/staging.py")
-    wr = prog.nested(stf, "wrapped")
-    rs = Evaluator(prog).eval_fn(wr, sm, env0={"f": P("f")})
-    oks = is_t(rs.ret, "tuple") and len(rs.ret[1]) == 2 and is_t(rs.ret[1][1], "tuple") and len(rs.ret[1][1][1]) == 3 and is_call(rs.ret[1][0], "cached_stage_dynamic")
-    if oks:
-        fl = ("call", G("jax.tree_util.tree_flatten"), (P("args"),), ())
-        oks = rs.ret[1][1][1][0] == mk_proj(fl, 0) and rs.ret[1][1][1][1] == mk_proj(fl, 1)
-    chk.require(oks, "INTERP-SKELETON", "stage.wrapped", "returns the staged jaxpr with (flat_args, in_tree, out_tree) of the same flattening", derived=show(rs.ret)[:240], expected="(typed_jaxpr, (flat_args, in_tree, out_tree))", where=f"{sm.rel}:{stf.lineno}")
+    staging_rules(chk, prog)
     chk.explanation = "loop skeleton of the stateful interpreter by dataflow, writer/reader agreement of initial-style binding, environment read/write rules"
